@@ -218,12 +218,15 @@ class C07(Prop):
         yield "doc-wrap", gen_wrap.wrap_cases(tier, rng, "doc-wrap")
         yield "para-wrap", gen_wrap.wrap_cases(tier, rng, "para-wrap")
         yield "control-wrap", gen_wrap.control_cases(tier, rng)
+        yield "doc-wrap-any", gen_wrap.any_cases(tier, rng)
 
     # ------------------------------------------------------------ oracle
     def oracle(self, stream, fields, impl):
         text = unhex(fields[0]); cfg = parse_cfg(fields[1])
         if impl in ("HANG", "ABORT", "MISSING"):
             return "implementation " + impl
+        if stream == "doc-wrap-any":
+            return None      # texts with syntax errors: outside the property (the tree has ERROR nodes); correspondence only
         if impl == "PANIC":
             if cfg["ind"] == "s0": return None          # Spaces(0): outside the property (assert!)
             if stream == "control-wrap" and self._rel_unparsable(text, fields, True): return None
@@ -397,6 +400,7 @@ class C07(Prop):
         return None if stream == "control-wrap" else 0
 
     def nontrivial(self, stream, fields, impl):
+        if stream == "doc-wrap-any": return False
         r = rec_fields(impl)
         if r.get("strict") != "OK" or not r.get("it0"): return False
         return True
